@@ -200,4 +200,12 @@ theorem ev_reqF32_lt (rate : Nat) (G : Bool → ℚ) :
   push_cast
   ring
 
+/-- exact probability that one `f32` draw lies below `rate` -/
+def P (rate : Nat) : ℚ := (cutoff rate : ℚ) / 2 ^ 24
+
+/-- number of positions at which two genomes differ -/
+def diffCount [DecidableEq α] : List α → List α → ℕ
+  | x :: xs, y :: ys => (if x = y then 0 else 1) + diffCount xs ys
+  | _, _ => 0
+
 end Uec.Lin
